@@ -507,13 +507,18 @@ def run(ctx):
                     if why:
                         api_bad += 1
                         found_violation |= ctx.violation(f"C03:api:{k[3:]}:{why}", f"POST {k[3:]} body {op.get('body', '')[:300]} -> {line[:200]}", f"api-{k[3:]}.jsonl", seq)
-                elif must_refuse and status != 400:
+                elif must_refuse and (status != 400 or 'detail="invalid sign request: missing ' not in line):
+                    # a request without kid / required member must be refused by validate(), before any key store call
                     api_bad += 1
-                    found_violation |= ctx.violation(f"C03:api:{k[3:]}:invalid-request-not-answered-400", f"body {op.get('body', '')[:300]} -> {line[:200]}", f"api-{k[3:]}-validate.jsonl", seq)
+                    found_violation |= ctx.violation(f"C03:api:{k[3:]}:invalid-request-not-refused-by-validate", f"body {op.get('body', '')[:300]} -> {line[:200]}", f"api-{k[3:]}-validate.jsonl", seq)
                 elif not must_refuse and op.get("kid") not in bound and not (status == 400 and "private key not found" in line):
                     api_bad += 1
                     found_violation |= ctx.violation(f"C03:api:{k[3:]}:unknown-kid-not-answered-400-private-key-not-found", f"body {op.get('body', '')[:300]} -> {line[:200]}", f"api-{k[3:]}-unknown.jsonl", seq)
             elif k == "apidecrypt":
+                if f.get("Message") == "present" and op.get("msg") == "jwe" and op.get("hkid") and op.get("hkid") not in bound and \
+                        not (status == 400 and "private key not found" in line):
+                    api_bad += 1
+                    found_violation |= ctx.violation("C03:api:decrypt_jwe:unknown-kid-not-answered-400-private-key-not-found", f"{ops[i][:300]} -> {line[:200]}", "api-decrypt-unknown.jsonl", seq)
                 if status == 200:
                     why = None
                     if f.get("Message") != "present" or op.get("msg") != "jwe":
